@@ -418,8 +418,10 @@ def check(case, ctx: Ctx):
                         if chn in outs[0]._schedule and chn in outs[1]._schedule:
                             ea = getattr(outs[0]._schedule[chn].channel_obj, "eom_config", None)
                             eb = getattr(outs[1]._schedule[chn].channel_obj, "eom_config", None)
-                            same_times = not snap.diff({k: [x[:4] for x in v] for k, v in ta.items()},
-                                                       {k: [x[:4] for x in v] for k, v in tb.items()})
+                            # (times and targets only: an idle EOM slot is a "delay" when the
+                            #  off-detuning is 0 and a detuned pulse otherwise)
+                            same_times = not snap.diff({k: [x[1:4] for x in v] for k, v in ta.items()},
+                                                       {k: [x[1:4] for x in v] for k, v in tb.items()})
                             if ea is not None and eb is not None and same_times and len(
                                     getattr(eb, "controlled_beams", ())) > 1 and set(
                                     getattr(ea, "controlled_beams", ())) != set(eb.controlled_beams):
@@ -466,15 +468,15 @@ def _chdiff(A, B):
 
 CLAUSES = [
     Clause("switch", check, gen=lambda t: cases(t),
-           budget={"quick": (16, 250), "thorough": (16, 4000)},
+           budget={"quick": (16, 250), "thorough": (16, 2000)},
            doc="switch_device strict/non-strict and switch_register"),
     Clause("switch_retarget", check, gen=lambda t: cases(t, profile_retarget),
-           budget={"quick": (8, 150), "thorough": (16, 3000)},
+           budget={"quick": (8, 150), "thorough": (16, 1500)},
            doc="local channels with frequent retargets x devices differing only in retarget times (half parametrized)"),
     Clause("switch_eom", check, gen=lambda t: cases(t, profile_eom),
-           budget={"quick": (8, 120), "thorough": (16, 2500)},
+           budget={"quick": (8, 120), "thorough": (16, 1500)},
            doc="EOM-heavy programs x devices differing only in the EOM configuration (half parametrized)"),
     Clause("switch_dmm", check, gen=lambda t: cases(t, profile_dmm),
-           budget={"quick": (16, 150), "thorough": (16, 3000)},
+           budget={"quick": (16, 150), "thorough": (16, 1500)},
            doc="DMM-heavy programs (detuning maps, aligns on DMM channels) x DMM parameter changes"),
 ]
